@@ -363,32 +363,9 @@ func engineAdmission(r *fw.Run, rule string, withVariables bool) {
 					}
 				}
 			}
-			// no JSON-object variables to validate
-			if b, ok := ast.Unparen(e).(*ast.BinaryExpr); ok && (b.Op.String() == "&&" && !branch || b.Op.String() == "||" && branch) {
-				// (a && b is false, or its De Morgan form !a || !b is true.) Every leaf must be about the shape of the
-				// variables themselves: an extra, unrelated condition would let JSON-object variables through unvalidated
-				all := true
-				var leaves func(x ast.Expr)
-				leaves = func(x ast.Expr) {
-					x = ast.Unparen(x)
-					if u, isNot := x.(*ast.UnaryExpr); isNot && u.Op.String() == "!" {
-						leaves(u.X)
-						return
-					}
-					if bb, isBin := x.(*ast.BinaryExpr); isBin && (bb.Op.String() == "&&" || bb.Op.String() == "||") {
-						leaves(bb.X)
-						leaves(bb.Y)
-						return
-					}
-					if !mentionsField(info, x, "graphql", "Request", "Variables") {
-						all = false
-					}
-				}
-				leaves(b)
-				if all {
-					st.Set("vars-ok")
-				}
-			}
+			// There is no edge that may skip the variables validator: absent, null or oddly spelled variables still leave
+			// required variables to be reported as missing (the former `len(Variables) > 0 && Variables[0] == '{'` skip
+			// edge was the defect F28).
 			if a.Kind == "False" {
 				if c, ok := ast.Unparen(a.X).(*ast.CallExpr); ok && fw.CallIs(info, c, "opreport", "Report.HasErrors") && st.Must("planned") && !st.May("plan-report-reused") {
 					st.Set("planned-ok")
